@@ -24,7 +24,7 @@ RULE = (
 )
 ASSUMPTIONS = ["API entry (conformance.ground_truth) with the Namespace __main__ builds", "descriptions from the argparse-expressible core"]
 CORE_ALLOWED = c09.CORE_ALLOWED
-FRONTIER_KNOBS = ("method_created",)
+FRONTIER_KNOBS = ("method_created", "nested_class")
 FLOORS = {"has_resync": 0.5, "has_edit": 0.3}
 KEYS = project.KIND_KEYS
 
@@ -41,7 +41,16 @@ def mod():
 
 @st.composite
 def _history(draw, knob):
-    base = draw(c09._case(knob))
+    base = draw(c09._case(knob if knob != "nested_class" else None))
+    # a class target nested in another class is a shape of an open finding here (KF-H02): excluded from the core
+    if knob == "nested_class":
+        if base["truth"] == "class":
+            base["truth"] = "argparse_function"
+            base["states"] = {"class": "stale", "function": "agreeing"}
+        base["states"]["class"] = base["states"].get("class") if base["states"].get("class") in ("stale", "agreeing") else "stale"
+        base["nested"] = True
+    else:
+        base["nested"] = False
     # stale FunctionDef targets are simply never touched (reported unchanged, truthfully): fine for this property, so
     # allow them here
     for k in base["states"]:
@@ -74,8 +83,8 @@ def strategy(mode, knob=None):
 
 def valid(case):
     try:
-        base = {k: case[k] for k in ("ir", "stale_ir", "truth", "states", "method")}
-        if not c09.valid(base) or set(case) != {"ir", "stale_ir", "truth", "states", "method", "steps", "path_style"}:
+        base = dict({k: case[k] for k in ("ir", "stale_ir", "truth", "states", "method")}, nested=case.get("nested", False))
+        if not c09.valid(base) or set(case) - {"nested"} != {"ir", "stale_ir", "truth", "states", "method", "steps", "path_style"}:
             return False
         if case["path_style"] not in ("abs", "relative", "symlink"):
             return False
@@ -99,7 +108,7 @@ def valid(case):
 
 
 def run_case(case):
-    base = {k: case[k] for k in ("ir", "stale_ir", "truth", "states", "method")}
+    base = dict({k: case[k] for k in ("ir", "stale_ir", "truth", "states", "method")}, nested=case.get("nested", False))
     tags = c09.case_tags(base) | {"paths=" + case["path_style"]}
     steps = case["steps"]
     ops = [s_["op"] for s_ in steps]
@@ -168,7 +177,7 @@ def run_case(case):
             before = project.snapshot(d)
             evals += 1
             try:
-                res, printed = project.run_sync(paths, truth, method, given, case["path_style"])
+                res, printed = project.run_sync(paths, truth, method, given, case["path_style"], nested=case.get("nested", False))
             except BaseException as e:
                 if isinstance(e, KeyboardInterrupt):
                     raise
